@@ -20,8 +20,10 @@ R3  locale precondition: formatnum's "separator present -> leave unformatted"
 from __future__ import annotations
 
 import ast
+import re
 
 from ..core.callgraph import CallGraph
+from ..core.flow import Flow
 from ..core.index import ExtRef, FuncRef, LambdaRef, unparse, walk_no_nested
 from ..core.report import AnalysisError, Finding, RuleResult
 
@@ -420,5 +422,273 @@ def rule_r5(ctx) -> RuleResult:
     return rr
 
 
+NEG_INF, POS_INF = -10**9, 10**9
+
+
+class _Bounds(Flow):
+    """Path-sensitive integer bounds for the locals of one parser function.  State: frozenset of facts
+    ("lb", x, n) / ("ub", x, n) / ("lt", a, b) [a < b, texts] / ("ge", a, b) / ("dec", s) [s.isdecimal()] / ("signed", x)
+    [x comes from int() of argument text that may carry a sign]."""
+
+    signed_helpers: set = set()   # module-level helpers that return int() of their argument's text (may be negative)
+
+    def __init__(self):
+        self.sites = []   # (subscript node, bound expr, which, lb, ub, signed?, text)
+
+    # -- queries
+    @staticmethod
+    def _get(state, kind, x, default):
+        vals = [f[2] for f in state if f[0] == kind and f[1] == x]
+        if not vals:
+            return default
+        return max(vals) if kind == "lb" else min(vals)
+
+    def signed(self, e, state) -> bool:
+        return any(isinstance(n, ast.Name) and ("signed", n.id, 0) in state for n in ast.walk(e))
+
+    def bounds(self, e, state):
+        """(lb, ub) of an integer expression"""
+        if isinstance(e, ast.Constant) and isinstance(e.value, int) and not isinstance(e.value, bool):
+            return e.value, e.value
+        if isinstance(e, ast.UnaryOp) and isinstance(e.op, ast.USub):
+            lb, ub = self.bounds(e.operand, state)
+            return (-ub if ub < POS_INF else NEG_INF), (-lb if lb > NEG_INF else POS_INF)
+        if isinstance(e, ast.Name):
+            return self._get(state, "lb", e.id, NEG_INF), self._get(state, "ub", e.id, POS_INF)
+        if isinstance(e, ast.Call) and isinstance(e.func, ast.Name):
+            f, a = e.func.id, e.args
+            if f == "len" and len(a) == 1:
+                return 0, POS_INF
+            if f == "abs" and len(a) == 1:
+                return 0, POS_INF
+            if f == "int" and len(a) == 1 and isinstance(a[0], ast.Name) and ("dec", a[0].id, 0) in state:
+                return 0, POS_INF
+            if f == "max" and a:
+                bs = [self.bounds(x, state) for x in a]
+                return max(b[0] for b in bs), max(b[1] for b in bs)
+            if f == "min" and a:
+                bs = [self.bounds(x, state) for x in a]
+                return min(b[0] for b in bs), min(b[1] for b in bs)
+            return NEG_INF, POS_INF
+        if isinstance(e, ast.Call) and isinstance(e.func, ast.Attribute) and e.func.attr in ("index", "count"):
+            return 0, POS_INF
+        if isinstance(e, ast.Call) and isinstance(e.func, ast.Attribute) and e.func.attr in ("find", "rfind"):
+            return -1, POS_INF
+        if isinstance(e, ast.BinOp):
+            (l1, u1), (l2, u2) = self.bounds(e.left, state), self.bounds(e.right, state)
+            if isinstance(e.op, ast.Add):
+                return (l1 + l2 if l1 > NEG_INF and l2 > NEG_INF else NEG_INF), (u1 + u2 if u1 < POS_INF and u2 < POS_INF else POS_INF)
+            if isinstance(e.op, ast.Sub):
+                lt, rt = unparse(e.left), unparse(e.right)
+                lb = l1 - u2 if l1 > NEG_INF and u2 < POS_INF else NEG_INF
+                ub = u1 - l2 if u1 < POS_INF and l2 > NEG_INF else POS_INF
+                if ("lt", rt, lt) in state:
+                    lb = max(lb, 1)
+                elif ("ge", lt, rt) in state:
+                    lb = max(lb, 0)
+                return lb, ub
+            if isinstance(e.op, ast.Mult):
+                if l1 >= 0 and l2 >= 0:
+                    return l1 * l2, (u1 * u2 if u1 < POS_INF and u2 < POS_INF else POS_INF)
+                return NEG_INF, POS_INF
+            if isinstance(e.op, ast.FloorDiv):
+                if l1 >= 0 and l2 >= 1:
+                    return 0, u1
+                return NEG_INF, POS_INF
+        return NEG_INF, POS_INF
+
+    # -- effects
+    def _kill(self, state, x):
+        return frozenset(f for f in state if not (f[1] == x or (f[0] in ("lt", "ge") and (re.search(r"\b%s\b" % re.escape(x), f[1]) or re.search(r"\b%s\b" % re.escape(x), str(f[2]))))))
+
+    def _record(self, node, state):
+        for n in ast.walk(node):
+            if isinstance(n, ast.Subscript) and isinstance(n.slice, ast.Slice):
+                for which, b in (("lower", n.slice.lower), ("upper", n.slice.upper)):
+                    if b is None or isinstance(b, ast.Constant) or (isinstance(b, ast.UnaryOp) and isinstance(b.operand, ast.Constant)):
+                        continue
+                    lb, ub = self.bounds(b, state)
+                    neg_add = (isinstance(b, ast.BinOp) and isinstance(b.op, ast.Add) and any(self.bounds(x, state)[1] < 0 for x in (b.left, b.right))) \
+                        or (isinstance(b, ast.Name) and ("negadd", b.id, 0) in state and lb < 0)
+                    self.sites.append((n, b, which, lb, ub, self.signed(b, state), neg_add))
+
+    def transfer(self, st, state):
+        self._record(st, state)
+        tg = None
+        if isinstance(st, ast.Assign) and len(st.targets) == 1 and isinstance(st.targets[0], ast.Name):
+            tg, v = st.targets[0].id, st.value
+        elif isinstance(st, ast.AnnAssign) and isinstance(st.target, ast.Name) and st.value is not None:
+            tg, v = st.target.id, st.value
+        elif isinstance(st, ast.AugAssign) and isinstance(st.target, ast.Name):
+            tg = st.target.id
+            v = ast.BinOp(left=ast.Name(id=tg, ctx=ast.Load()), op=st.op, right=st.value)
+        if tg is None:
+            return [state]
+        lb, ub = self.bounds(v, state)
+        signed = self.signed(v, state) or (isinstance(v, ast.Call) and isinstance(v.func, ast.Name) and v.func.id == "int" and v.args
+                                           and not (isinstance(v.args[0], ast.Name) and ("dec", v.args[0].id, 0) in state)) \
+            or (isinstance(v, ast.Call) and isinstance(v.func, ast.Name) and v.func.id in self.signed_helpers)
+        # a sum with an addend that is known to be <= 0 and unbounded below on this path (a negative count taken from the input)
+        negadd = isinstance(v, ast.BinOp) and isinstance(v.op, ast.Add) and any(
+            self.bounds(x, state)[1] <= 0 and self.bounds(x, state)[0] <= NEG_INF and self.signed(x, state) for x in (v.left, v.right)) and lb <= NEG_INF
+        s2 = self._kill(state, tg)
+        if lb > NEG_INF:
+            s2 = s2 | {("lb", tg, lb)}
+        if ub < POS_INF:
+            s2 = s2 | {("ub", tg, ub)}
+        if signed:
+            s2 = s2 | {("signed", tg, 0)}
+        if negadd:
+            s2 = s2 | {("negadd", tg, 0)}
+        return [s2]
+
+    def transfer_expr(self, node, state):
+        if node is not None:
+            self._record(node, state)
+        return [state]
+
+    def _facts(self, test, truth: bool) -> set:
+        out = set()
+        if isinstance(test, ast.UnaryOp) and isinstance(test.op, ast.Not):
+            return self._facts(test.operand, not truth)
+        if isinstance(test, ast.BoolOp):
+            if isinstance(test.op, ast.And) == truth:
+                for v in test.values:
+                    out |= self._facts(v, truth)
+            return out
+        if isinstance(test, ast.Call) and isinstance(test.func, ast.Attribute) and test.func.attr == "isdecimal" and isinstance(test.func.value, ast.Name):
+            if truth:
+                out.add(("dec", test.func.value.id, 0))
+            return out
+        if isinstance(test, ast.Compare) and len(test.ops) == 1:
+            l, op, r = test.left, test.ops[0], test.comparators[0]
+            ops = {ast.Lt: "<", ast.LtE: "<=", ast.Gt: ">", ast.GtE: ">=", ast.Eq: "==", ast.NotEq: "!="}
+            o = ops.get(type(op))
+            if o is None:
+                return out
+            if not truth:
+                o = {"<": ">=", "<=": ">", ">": "<=", ">=": "<", "==": "!=", "!=": "=="}[o]
+            if isinstance(l, ast.Constant) and not isinstance(r, ast.Constant):
+                l, r = r, l
+                o = {"<": ">", "<=": ">=", ">": "<", ">=": "<=", "==": "==", "!=": "!="}[o]
+            if isinstance(l, ast.Name) and isinstance(r, ast.Constant) and isinstance(r.value, int):
+                c = r.value
+                if o == "<":
+                    out.add(("ub", l.id, c - 1))
+                elif o == "<=":
+                    out.add(("ub", l.id, c))
+                elif o == ">":
+                    out.add(("lb", l.id, c + 1))
+                elif o == ">=":
+                    out.add(("lb", l.id, c))
+                elif o == "==":
+                    out |= {("lb", l.id, c), ("ub", l.id, c)}
+                elif o == "!=":
+                    out.add(("ne", l.id, c))
+            else:
+                lt, rt = unparse(l), unparse(r)
+                if o == "<":
+                    out.add(("lt", lt, rt))
+                elif o == ">":
+                    out.add(("lt", rt, lt))
+                elif o == ">=":
+                    out.add(("ge", lt, rt))
+                elif o == "<=":
+                    out.add(("ge", rt, lt))
+        return out
+
+    def branch(self, test, state):
+        self._record(test, state)
+
+        def refine(st_, facts):
+            st_ = set(st_) | facts
+            # x != c with lb == c  =>  lb c+1 ; with ub == c => ub c-1
+            for f in list(st_):
+                if f[0] == "ne":
+                    if self._get(st_, "lb", f[1], NEG_INF) == f[2]:
+                        st_.add(("lb", f[1], f[2] + 1))
+                    if self._get(st_, "ub", f[1], POS_INF) == f[2]:
+                        st_.add(("ub", f[1], f[2] - 1))
+            # infeasible?
+            for f in st_:
+                if f[0] == "lb" and self._get(st_, "ub", f[1], POS_INF) < f[2]:
+                    return None
+            return frozenset(x for x in st_ if x[0] != "ne")
+
+        t, f = refine(state, self._facts(test, True)), refine(state, self._facts(test, False))
+        return ([t] if t is not None else []), ([f] if f is not None else [])
+
+    def for_target(self, node, state):
+        s2 = state
+        for n in ast.walk(node.target):
+            if isinstance(n, ast.Name):
+                s2 = self._kill(s2, n.id)
+        if isinstance(node.target, ast.Name) and isinstance(node.iter, ast.Call) and isinstance(node.iter.func, ast.Name) and node.iter.func.id == "range":
+            a = node.iter.args
+            start = a[0] if len(a) >= 2 else ast.Constant(value=0)
+            lb, _ = self.bounds(start, state)
+            step_ok = len(a) < 3 or self.bounds(a[2], state)[0] >= 1
+            if lb > NEG_INF and step_ok:
+                s2 = s2 | {("lb", node.target.id, lb)}
+        return [s2]
+
+    def loop_backedge(self, loop, entry, state, via):
+        # widen: keep only the facts that also held at loop entry in some state
+        keep = set()
+        for e in entry:
+            keep |= (set(state) & set(e))
+        return frozenset(keep) if entry else state
+
+
+def d_not_registered(q: str, cg) -> bool:
+    return ("parserfns." + q) not in cg.registered_parser_functions
+
+
+def rule_r6(ctx) -> RuleResult:
+    """Python reads a negative slice bound as `counted from the end`, the reference definitions (PHP mb_substr / array_slice
+    with the arithmetic of ParserFunctions) do not: a bound that goes below zero silently selects other characters or
+    segments.  For every slice in a registered parser function whose bound is computed from a signed integer argument
+    (`int()` of argument text without an isdecimal() guard) the bound has to be provably >= 0 on every path -- by clamps
+    (`max(0, .)`), guards (`if x < 0: ...`) and the arithmetic in between (path-sensitive integer bounds).  A finite negative
+    lower bound, or a known-negative addend, is reported; a bound about which nothing is known is left undecided."""
+    rr = RuleResult("C18.R6", "slice bounds computed from signed arguments are provably non-negative", min_instances=3)
+    cg = CallGraph(ctx.index)
+    targets = sorted(d for d in cg.registered_parser_functions if ctx.index.has_func(d))
+    undecided = []
+    m = ctx.index.mod("parserfns")
+    _Bounds.signed_helpers = {q for q, f in m.funcs.items() if "." not in q and d_not_registered(q, cg)
+                              and any(isinstance(c, ast.Call) and isinstance(c.func, ast.Name) and c.func.id == "int" and c.args
+                                      and isinstance(c.args[0], ast.Name) and c.args[0].id in {a.arg for a in f.args.args} for c in ast.walk(f))
+                              and not any(isinstance(c, ast.Call) and isinstance(c.func, ast.Attribute) and c.func.attr in ("isdecimal", "isdigit") for c in ast.walk(f))}
+    for dotted in targets:
+        fn = ctx.index.func(dotted)
+        w = _Bounds()
+        try:
+            w.run_function(fn, [frozenset()])
+        except AnalysisError:
+            continue
+        by_site = {}
+        for n, b, which, lb, ub, signed, neg_add in w.sites:
+            if signed:
+                by_site.setdefault((id(n), which), []).append((n, b, lb, ub, neg_add))
+        for (_, which), lst in by_site.items():
+            n, b = lst[0][0], lst[0][1]
+            worst = min(x[2] for x in lst)
+            neg_add = any(x[4] for x in lst)
+            label = "{}[{} bound `{}`]".format(unparse(n.value)[:20], which, unparse(b)[:40])
+            if worst >= 0:
+                rr.ok(dotted, label + " >= 0 on every path", {"fn": dotted, "bound": unparse(b), "lower_bound": worst})
+            elif worst > NEG_INF or neg_add:
+                rr.bad(Finding("C18.R6", PFN, dotted, "{}[... {} ...]".format(unparse(n.value)[:20], unparse(b)[:50]),
+                               "the {} bound of this slice is computed from a signed argument and can be negative (lower bound {}): Python "
+                               "then counts it from the end of the sequence and returns characters / segments the reference definition "
+                               "does not".format(which, "unbounded, a negative value is added" if worst <= NEG_INF else worst), n.lineno))
+            else:
+                undecided.append({"fn": dotted, "bound": unparse(b)[:60]})
+    if undecided:
+        rr.informational.append({"bounds_not_decided": undecided})
+    return rr
+
+
 def run(ctx) -> list:
-    return [rule_r1(ctx), rule_r2(ctx), rule_r3(ctx), rule_r4(ctx), rule_r5(ctx)]
+    return [rule_r1(ctx), rule_r2(ctx), rule_r3(ctx), rule_r4(ctx), rule_r5(ctx), rule_r6(ctx)]
